@@ -566,12 +566,19 @@ func runTypedRequests(w *ndWriter, p typedPkg) {
 		if wi != nil {
 			wi.Stop()
 		}
+		// a re-watch through the same client (after a disconnect) carries its own resourceVersion only
+		wi2, _ := cl.Watch(ctx, metav1.ListOptions{ResourceVersion: "9", Watch: true})
+		if wi2 != nil {
+			wi2.Stop()
+		}
 		cancel()
 		rt.mu.Lock()
 		for i, r := range rt.reqs {
 			op := "list"
-			if i > 0 {
+			if i == 1 {
 				op = "watch"
+			} else if i > 1 {
+				op = "watch2"
 			}
 			var q []string
 			for k, vs := range r.URL.Query() {
@@ -583,7 +590,7 @@ func runTypedRequests(w *ndWriter, p typedPkg) {
 			w.write2(fmt.Sprintf(`{"k":"typed.req","pkg":%q,"ns":%q,"op":%q,"method":%q,"path":%q,"query":[%s],"listerr":%v,"watcherr":%v}`,
 				p.name, ns, op, r.Method, r.URL.Path, strings.Join(q, ","), lerr != nil, werr != nil))
 		}
-		if len(rt.reqs) != 2 {
+		if len(rt.reqs) != 3 {
 			w.write2(fmt.Sprintf(`{"k":"typed.reqcount","pkg":%q,"ns":%q,"n":%d}`, p.name, ns, len(rt.reqs)))
 		}
 		rt.mu.Unlock()
